@@ -8,6 +8,7 @@ import re
 
 OUT = "Globals.v"
 FIELDS = {}
+STATICS = []
 
 PREP_FUNCS = {"do_source_file", "uncrustify_file", "output_text", "uncrustify_start", "tokenize", "read_stdin", "load_mem_file", "codec_passthrough"}
 ARG_FUNCS = {"main", "redir_stdout", "load_header_files", "load_mem_file_config", "process_source_list"}
@@ -130,8 +131,43 @@ def generate(repo):
                                                           "true" if i["P"] else "false", f, ",".join(sorted(set(i["W"])))[:120]))
     L.append(";\n".join(rows))
     L.append("].\n")
+    # ---- second inventory: static-storage variables outside cpd (file scope and function-local), every .cpp/.h
+    statics = []
+    for root, _, files in os.walk(src_dir):
+        for fn in sorted(files):
+            if not fn.endswith((".cpp", ".h")) or fn in ("verif_hooks.h", "uncrustify_emscripten.cpp"):
+                continue
+            path = os.path.join(root, fn)
+            rel = os.path.relpath(path, src_dir)
+            lines = strip_comments(open(path).read()).split("\n")
+            for ln, line in enumerate(lines):
+                sm = re.match(r"^(\s*)(?:thread_local\s+)?static\s+(.*)$", line)
+                if not sm or "static_assert" in line or "operator" in line or "WINAPI" in line:
+                    continue
+                indent, rest = sm.group(1), sm.group(2).rstrip()
+                head = re.split(r"[=;{]", rest, 1)[0]
+                if not indent or fn.endswith(".h"):
+                    # file scope / class scope: a '(' in front of any '=' means a function (declaration or definition)
+                    if "(" in head or rest.endswith(",") or re.match(r"^(inline|constexpr\s+\w+\s+\w+\()", rest):
+                        continue
+                else:
+                    # inside a function body every 'static' declares a variable, also 'static T name(args);'
+                    head = head.split("(", 1)[0]
+                nm = re.findall(r"[A-Za-z_]\w*", re.sub(r"\[[^\]]*\]", "", head))
+                if not nm:
+                    raise ValueError("%s:%d: static declaration not understood: %r" % (rel, ln + 1, line))
+                const = bool(re.search(r"\b(const|constexpr)\b", head))
+                statics.append({"file": rel, "name": nm[-1], "const": const, "local": bool(indent) and not fn.endswith(".h"), "line": ln + 1, "decl": rest[:90]})
+    if len(statics) < 25:
+        raise ValueError("only %d static variables found" % len(statics))
+    STATICS[:] = statics
+    L.append("(* static-storage variables outside cpd: file, name, declared const?, function-local? *)")
+    L.append("Definition static_vars : list (list Z * list Z * bool * bool) := [")
+    L.append(";\n".join("  (%s, %s, %s, %s) (* %s:%d %s *)" % (coq_bytes(x["file"]), coq_bytes(x["name"]), "true" if x["const"] else "false", "true" if x["local"] else "false",
+                                                              x["file"], x["line"], x["decl"].replace("*)", "* )").replace("(*", "( *").replace('"', "'")) for x in statics))
+    L.append("].\n")
     text = "\n".join(L)
-    summary = {"fields": len(names), "write_sites": n_sites,
+    summary = {"fields": len(names), "write_sites": n_sites, "static_vars": len(statics),
                "W_not_reset_or_prepared": [f for f in names if info[f]["W"] and not reset_ok(f) and not info[f]["P"]],
                "reset": [f for f in names if reset_ok(f)]}
     return {"file": OUT, "text": text, "info": summary}
@@ -140,5 +176,7 @@ def generate(repo):
 if __name__ == "__main__":
     r = generate("/repo")
     print(r["info"])
+    for x in STATICS:
+        print("STATIC", x["file"], x["name"], "const" if x["const"] else "mutable", "local" if x["local"] else "file", "|", x["decl"])
     for f, i in FIELDS.items():
         print(f, "| R:", i["R"], "| P:", i["P"][:2], "| A:", sorted(set(i["A"])), "| W:", sorted(set(i["W"]))[:6])
